@@ -54,7 +54,37 @@ fn set_clock(ms: u64) {
 struct Ctx {
     ip_a: IpAddr,
     ip_b: IpAddr,
+    /// ip_a with one bit changed: the lowest and the highest bit of every octet in turn
+    variants: Vec<IpAddr>,
 }
+
+fn variants_of(ip: IpAddr) -> Vec<IpAddr> {
+    let mut v = vec![];
+    match ip {
+        IpAddr::V4(a) => {
+            for i in 0..4 {
+                for bit in [0x01u8, 0x80] {
+                    let mut o = a.octets();
+                    o[i] ^= bit;
+                    v.push(IpAddr::V4(o.into()));
+                }
+            }
+        }
+        IpAddr::V6(a) => {
+            for i in 0..16 {
+                for bit in [0x01u8, 0x80] {
+                    let mut o = a.octets();
+                    o[i] ^= bit;
+                    v.push(IpAddr::V6(o.into()));
+                }
+            }
+        }
+    }
+    v
+}
+
+/// Offsets at which the future of the followed token is looked at when two states are compared.
+const LOOKAHEAD_MS: [u64; 8] = [0, 300_000, 600_000, 900_000, 1_200_000, 1_500_000, 1_800_000, 2_100_000];
 
 impl Ctx {
     fn key(&self, s: &St) -> u128 {
@@ -75,7 +105,22 @@ impl Ctx {
                 (age, rel)
             }
         };
-        ((since as u128) << 64) | ((age as u128) << 8) | rel as u128
+        // Observational part of the key: whether the followed token would be accepted from A after
+        // waiting d more (on a copy). On the unchanged store this is a function of (cur, last, since,
+        // rel) and adds no state; it keeps apart states that differ in a field the snapshot hook does
+        // not show (two states are only merged when their token has the same future).
+        let mut fp = 0u128;
+        if let Some((tok, _)) = s.tracked {
+            for (k, d) in LOOKAHEAD_MS.iter().enumerate() {
+                set_clock(s.now_ms + d);
+                let mut c = s.store;
+                if c.checkin(self.ip_a, Token::from(tok)) {
+                    fp |= 1 << k;
+                }
+            }
+            set_clock(s.now_ms);
+        }
+        ((since as u128) << 64) | (fp << 96) | ((age as u128) << 8) | rel as u128
     }
 
     /// Oracle evaluated on a copy of the store in state `s` (the copy absorbs lazy rotation).
@@ -111,6 +156,15 @@ impl Ctx {
                     "token-accepted-from-other-ip".into(),
                     format!("token issued to {} accepted from {}", self.ip_a, self.ip_b),
                 ));
+            }
+            for other in &self.variants {
+                let mut c = s.store;
+                if c.checkin(*other, Token::from(tok)) {
+                    return Err((
+                        "token-accepted-from-other-ip".into(),
+                        format!("token issued to {} accepted from {} (one bit of the address changed)", self.ip_a, other),
+                    ));
+                }
             }
             let mut flipped = tok;
             flipped[19] ^= 1;
@@ -219,7 +273,7 @@ fn initial() -> St {
 pub fn replay(v: &Value) -> i32 {
     let family = v["family"].as_str().unwrap_or("v4");
     let (ip_a, ip_b) = ips(family);
-    let ctx = Ctx { ip_a, ip_b };
+    let ctx = Ctx { ip_a, ip_b, variants: variants_of(ip_a) };
     let mut s = initial();
     println!("replay C06 family={family}");
     for e in v["events"].as_array().cloned().unwrap_or_default() {
@@ -275,7 +329,7 @@ pub fn run(tier: Tier, rep: &mut Report) {
     let mut all_closed = true;
     for (family, steps) in runs {
         let (ip_a, ip_b) = ips(family);
-        let ctx = Ctx { ip_a, ip_b };
+        let ctx = Ctx { ip_a, ip_b, variants: variants_of(ip_a) };
         let evs = events(&steps);
         let res = space::bfs(
             vec![initial()],
